@@ -2452,7 +2452,7 @@ class StdCleanuper:
     @classmethod
     def make(cls, llparser: LLParser, keep_symbols) -> Self:
 
-        keep_symbols = set() if keep_symbols is None else keep_symbols
+        keep_symbols = set() if keep_symbols is None else set(keep_symbols)
         keep_symbols.add(llparser.start_symbol_name)
 
         squash_symbols, choice_symbols = cls._make_squash_data(llparser)
